@@ -94,6 +94,9 @@ def scenarios(tier, seed):
         out.append(dict(family="unweighted/concrete-twin", mode="unweighted", variant=i, hashseed=i % 2, concrete_only=True))
     for i in range(12 if tier == "quick" else 60):
         out.append(dict(family="em/concrete-twin", mode="em", variant=i + (0 if tier == "quick" else 100 * seed), hashseed=i % 2, concrete_only=True))
+    # wide latent-class models: the joint probability of a completed row is far below 1e-10 for the wrong latent class
+    for i in range(2 if tier == "quick" else 6):
+        out.append(dict(family="em/concrete-twin-wide", mode="em", wide=14 + 2 * (i % 3), variant=i + 7 * seed, hashseed=i % 2, concrete_only=True, cost=50))
     return out
 
 
@@ -122,7 +125,28 @@ def run_em(desc, M):
     lcard = {lv: 2 + ((v // 4 + i) % 2) for i, lv in enumerate(latents)}
     n = int(rng.integers(12, 30))
     lab = (lambda x, s: f"{x.lower()}{s}") if v % 3 == 1 else (lambda x, s: s)
-    data = pd.DataFrame({x: [lab(x, int(s)) for s in rng.integers(0, card[x], size=n)] for x in obs})
+    wide = desc.get("wide")
+    if wide:
+        # one binary latent class with `wide` four-state indicators, data drawn from a sharply separated mixture
+        obs = [f"X{j:02d}" for j in range(wide)]
+        edges, latents = [("L", x) for x in obs], ["L"]
+        card = {x: 4 for x in obs}
+        lcard = {"L": 2}
+        n = 60
+        lab = lambda x, s: s  # noqa
+        perm = [rng.permutation(4) for _ in obs]
+        z = rng.integers(0, 2, n)
+        cols = {}
+        for j, x in enumerate(obs):
+            pj = []
+            for l in (0, 1):
+                q = np.full(4, 0.1 / 3)
+                q[perm[j][l]] = 0.9
+                pj.append(q)
+            cols[x] = [int(rng.choice(4, p=pj[zi])) for zi in z]
+        data = pd.DataFrame(cols)
+    else:
+        data = pd.DataFrame({x: [lab(x, int(s)) for s in rng.integers(0, card[x], size=n)] for x in obs})
     if v % 3 == 1:
         for x in obs:  # pandas-3 'str' columns are not recognised by this pgmpy's preprocess_data (pinned environment; outside the property): categorical
             data[x] = data[x].astype("category")
@@ -139,6 +163,16 @@ def run_em(desc, M):
         t = t / t.sum(axis=0)
         return TabularCPD(x, allcard[x], t, evidence=pa or None, evidence_card=[allcard[p] for p in pa] or None, state_names={y: allsn[y] for y in [x] + pa})
     init = {x: rand_cpd(x) for x in sorted(touched)}
+    if wide:
+        # start near the generating mixture (a random start keeps every completion above the clipping level for many iterations)
+        init = {"L": TabularCPD("L", 2, [[0.45], [0.55]], state_names={"L": [0, 1]})}
+        for j, x in enumerate(obs):
+            t = np.full((4, 2), 0.2 / 3)
+            t[perm[j][0], 0] = 0.8
+            t[perm[j][1], 1] = 0.8
+            t = t + 0.02 * rng.random(t.shape)
+            t = t / t.sum(axis=0)
+            init[x] = TabularCPD(x, 4, t, evidence=["L"], evidence_card=[2], state_names={x: allsn[x], "L": [0, 1]})
 
     def loglik(cpds):
         by = {cpd.variable: cpd.to_factor() for cpd in cpds}
@@ -154,7 +188,7 @@ def run_em(desc, M):
             tot += math.log(s)
         return tot
     prev = None
-    for k in range(1, 5 if v % 2 else 7):
+    for k in range(1, 5 if (v % 2 or wide) else 7):
         em = ExpectationMaximization(model, data, state_names=dict(sn))
         cpds = em.get_parameters(latent_card=dict(lcard), max_iter=k, init_cpds={x: cp.copy() for x, cp in init.items()}, show_progress=False, n_jobs=1, atol=0)
         if not M.check({cp.variable for cp in cpds} == set(model.nodes()) and len(cpds) == len(model.nodes()), "EM returns one CPD per node (latents included)",
@@ -170,6 +204,8 @@ def run_em(desc, M):
             M.check(ll >= prev - 1e-9, "EM never decreases the observed-data log-likelihood from one iteration to the next",
                     detail=f"after {k - 1} iterations {prev!r}, after {k} iterations {ll!r}")
         prev = ll
+    if wide:
+        return
     # nothing latent: EM coincides with maximum likelihood
     m2 = BayesianNetwork([("B", "C"), ("A", "C")] if v % 2 else [("A", "B"), ("B", "C")])
     cp_em = ExpectationMaximization(m2, data, state_names=dict(sn)).get_parameters(show_progress=False)
